@@ -35,15 +35,15 @@ def mc_runs(ctx, which):
 
 def generate(ctx):
     gl = ["SPECIFICATION Spec", "VIEW GenView", "ACTION_CONSTRAINT Emit", "CHECK_DEADLOCK FALSE"]
-    sets = [("LimSmall", 2), ("LimNone", 2), ("LimTwo", 2), ("LimLeak", 3)] if ctx.quick() else [("LimSmall", 3), ("LimLeak", 3), ("LimNone", 2), ("LimTwo", 2)]
+    sets = [("LimSmall", 2), ("LimNone", 2), ("LimTwo", 2), ("LimLeak", 3), ("LimSmall", 3)] if ctx.quick() else [("LimSmall", 3), ("LimLeak", 3), ("LimNone", 2), ("LimTwo", 2)]
     behs, stats = [], []
     import random
     for lim, mc in sets:
-        b, g = tlc_generate(ctx, "ConnMgrMC.tla", write_cfg(ctx, "gen_%s.cfg" % lim, dict(BASE, Limits="<- " + lim, MaxCid=mc), gl), timeout=3000)
+        b, g = tlc_generate(ctx, "ConnMgrMC.tla", write_cfg(ctx, "gen_%s%d.cfg" % (lim, mc), dict(BASE, Limits="<- " + lim, MaxCid=mc), gl), timeout=3000)
         if ctx.quick() and len(b) > 12000:
             # quick tier: a seeded sample of the deeper graph, the thorough tier replays all of it
             g["sampled_from"] = len(b)
-            b = random.Random(ctx.seed).sample(b, 12000)
+            b = random.Random(ctx.seed).sample(b, 9000)
             g["behaviours"] = len(b)
         behs += b
         g["cfg"] = "%s/MaxCid=%d" % (lim, mc)
@@ -107,7 +107,7 @@ def classify(seg, idx, reason):
     return [reason.replace(" ", "-")]
 
 
-def pipeline(ctx, pid, nrand_quick=1500, nrand_thorough=12000):
+def pipeline(ctx, pid, nrand_quick=1000, nrand_thorough=12000):
     mc = mc_runs(ctx, pid)
     behs, gstats = generate(ctx)
     write_jsonl(ctx.path("behs.jsonl"), behs)
